@@ -167,7 +167,7 @@ func runC15(ch chooser.Chooser, st *Stats) *Outcome {
 	}
 	dirtyGets := 0
 	res := runSched(ch, sched.Config{StayWeight: cfg.StayWeight, PoolPolicy: cfg.PoolPolicy, PoolDropPct: cfg.PoolDrop, MaxSteps: 20000}, bodies, &dirtyGets)
-	out := &Outcome{Steps: res.Steps, Nontrivial: dirtyGets > 0}
+	out := &Outcome{Steps: res.Steps, Nontrivial: dirtyGets > 0, Detached: res.Detached}
 	h := newHasher()
 	h.u64(res.Hash)
 	for _, os := range ops {
